@@ -17,6 +17,7 @@ import PolyplyVerif.Model.ItpIO
 import PolyplyVerif.Model.C11Lex
 import PolyplyVerif.Proofs.ItpIO
 import PolyplyVerif.Proofs.C11Lex
+import PolyplyVerif.Proofs.ComposeMapItp
 
 namespace PolyplyVerif.C11
 open PolyplyVerif.ItpIO
@@ -354,5 +355,78 @@ example : lexText ["  [ Bonds ] ; the bonds".toList, "".toList, " \t; only a com
                    "#ifdef  FLEX".toList, "[ atoms".toList]
     = [.header "bonds", .blank, .comment "only a comment", .data ["1", "2", "1", "0.3", "5000"] (some "c"),
        .pragma ["#ifdef", "FLEX"], .bad "[ atoms"] := by decide
+
+end PolyplyVerif.C11
+
+/-! ## end-to-end composition (appended; helper lemmas and bridge functions: Proofs/ComposeMapItp.lean) -/
+
+namespace PolyplyVerif.C11
+open PolyplyVerif PolyplyVerif.ItpIO
+
+/-! ### composition with the block layout (C11 ∘ C01) -/
+
+/-- **C11_roundtrip_of_built.**  The molecule `add_blocks` builds satisfies the hypotheses of the itp round
+trip.  Under the hypotheses of `C01_layout_partial` (residue ids a permutation of `start, start+1, …`,
+`start ≥ 1`, every residue a regular node of a single-residue block) and `Compose.BlockOk` for every block
+used (no `atomid` attribute, a mass only with a charge, interaction atoms inside the block, not both
+`ifdef`/`ifndef`, the arity of the section's line format): `add_blocks` succeeds, what it builds IS
+`MapToMol.specMol` (the re-indexed block copies, `C01_layout_partial` + `C01_interactions_partial`), its
+image under the bridge `Compose.toItpMol` is `WF`, and writing it and reading the file back
+(`C11_roundtrip`) gives the name, `nrexcl`, exactly the atoms of the block copies in node order keyed
+`0..n-1`, and under every section exactly the multiset of the copies' interactions.  The bridge
+(`Proofs/ComposeMapItp.lean`): `toItpAtom` / `toItpIxn` read the fields of an `[ atoms ]` line / the
+writer's meta entries out of MapToMol's attribute dictionaries, `toItpMol` groups the interaction list by
+section.  The round trip is on lexed lines: no hypothesis on token characters is needed (those enter
+`C11_roundtrip_text` only). -/
+theorem C11_roundtrip_of_built {κ : Type} [DecidableEq κ] (ff : MapToMol.FF) (t : MapToMol.Tables κ)
+    (nodes : List (MapToMol.ResNode κ)) (start : Nat)
+    (hne : nodes ≠ []) (hstart : 1 ≤ start)
+    (hres : (nodes.map (·.resid)).Perm (List.range' start nodes.length))
+    (hreg : ∀ n ∈ nodes, Proofs.MapToMol.RegularNode ff t n)
+    (hok : ∀ n ∈ nodes, ∀ b, ff.block? n.resname = some b → Compose.BlockOk b)
+    (header : List String) (moltype : Tok) (nrexcl : Nat) :
+    ∃ st lines blk, MapToMol.addBlocks ff t nodes = .ok st ∧ st.mol = MapToMol.specMol ff nodes ∧
+      WF (Compose.toItpMol nrexcl st.mol) ∧
+      writeItp header moltype (Compose.toItpMol nrexcl st.mol) = .ok lines ∧ readItp lines = .ok blk ∧
+      blk.name = moltype ∧ blk.nrexcl = nrexcl ∧
+      blk.atoms = canonAtomsFrom 0 ((MapToMol.specMol ff nodes).atoms.map Compose.toItpAtom) ∧
+      ∀ s, (blk.ixnsOf s).Perm (canonIxns (Compose.toItpMol nrexcl (MapToMol.specMol ff nodes)) s) :=
+  Compose.roundtrip_of_built ff t nodes start hne hstart hres hreg hok header moltype nrexcl
+
+open PolyplyVerif.Proofs.MapToMol.Example in
+/-- Non-vacuity: the force field / residue list of the C01 examples (ALA, GLY, GLY inserted out of order,
+resids 8/7/9) meets every hypothesis (`C01.Example.regular`, `C01.Example.resids`, `BlockOk` below); the
+bridged specification molecule has the five atoms of GLY, ALA, GLY keyed 0..4, one `bonds` section with the
+two shifted bonds, and passes the executable well-formedness check. -/
+example :
+    (∀ n ∈ nodes, ∀ b, ff.block? n.resname = some b → Compose.BlockOk b) ∧
+    (∀ n ∈ nodes, Proofs.MapToMol.RegularNode ff tbl n) ∧
+    (nodes.map (·.resid)).Perm (List.range' 7 nodes.length) ∧
+    ((Compose.toItpMol 1 (MapToMol.specMol ff nodes)).atoms.map (fun a => (a.key, a.name, a.resid, a.resname, a.cgnr))) =
+      [(0, "BB", 7, "GLY", 1), (1, "SC1", 7, "GLY", 2), (2, "BB", 8, "ALA", 3), (3, "BB", 9, "GLY", 4), (4, "SC1", 9, "GLY", 5)] ∧
+    (Compose.toItpMol 1 (MapToMol.specMol ff nodes)).sections =
+      [("bonds", [⟨[0, 1], ["1", "0.3", "5000"], none, none, none, none⟩, ⟨[3, 4], ["1", "0.3", "5000"], none, none, none, none⟩])] ∧
+    wfB (Compose.toItpMol 1 (MapToMol.specMol ff nodes)) = true ∧
+    ∃ st lines blk, MapToMol.addBlocks ff tbl nodes = .ok st ∧
+      writeItp [] "MOL" (Compose.toItpMol 1 st.mol) = .ok lines ∧ readItp lines = .ok blk ∧
+      blk.atoms = canonAtomsFrom 0 ((MapToMol.specMol ff nodes).atoms.map Compose.toItpAtom) := by
+  have hgly : Compose.BlockOk gly := by
+    refine ⟨?_, ?_, ?_, ?_, ?_⟩ <;> decide
+  have hala : Compose.BlockOk ala := by
+    refine ⟨?_, ?_, ?_, ?_, ?_⟩ <;> decide
+  have hok : ∀ n ∈ nodes, ∀ b, ff.block? n.resname = some b → Compose.BlockOk b := by
+    intro n hn b hb
+    simp only [nodes, List.mem_cons, List.not_mem_nil, or_false] at hn
+    rcases hn with rfl | rfl | rfl
+    · have : ff.block? "ALA" = some ala := by decide
+      rw [this] at hb; cases hb; exact hala
+    · have : ff.block? "GLY" = some gly := by decide
+      rw [this] at hb; cases hb; exact hgly
+    · have : ff.block? "GLY" = some gly := by decide
+      rw [this] at hb; cases hb; exact hgly
+  refine ⟨hok, C01.Example.regular, C01.Example.resids, by decide, by decide, by decide, ?_⟩
+  obtain ⟨st, lines, blk, h1, _, _, h2, h3, _, _, h4, _⟩ :=
+    C11_roundtrip_of_built ff tbl nodes 7 (by decide) (by decide) C01.Example.resids C01.Example.regular hok [] "MOL" 1
+  exact ⟨st, lines, blk, h1, h2, h3, h4⟩
 
 end PolyplyVerif.C11
